@@ -15,7 +15,7 @@ from .. import common, dating, split_corr as sc
 from ..common import Result, Violation
 
 META = dict(
-    level='Lean theorems over the executable models of `_split_disjoint_nodes` and `_relabel_mutations_node`, for every edge table, sample mask and admissible argsort: endpoints map back through nodes_order; per-position tree isomorphism (same parent-child pairs after mapping back, injective on the nodes of each local tree); every non-sample output node is present on an interval; distinct pieces are separated by a strict gap; leftmost piece keeps the id; samples never split; idempotence under any row permutation; the mutation sweep equals "last inserted piece with left <= position", maps each mutation back to its node and onto the piece present at its position. Models tied to the numba kernels exactly (captured in-situ calls + synthetic inputs). Partial: node-table copy, metadata, tables.sort and genotype decoding are tskit/numpy by contract, checked by the oracle on every generated input.',
+    level='Lean theorems over the executable models of `_split_disjoint_nodes` and `_relabel_mutations_node`, for every edge table, sample mask and admissible argsort: endpoints map back through nodes_order; per-position tree isomorphism (same parent-child pairs after mapping back, injective on the nodes of each local tree); every non-sample output node is present on an interval; distinct pieces are separated by a strict gap; leftmost piece keeps the id; samples never split; idempotence under any row permutation; the mutation sweep equals "last inserted piece with left <= position", maps each mutation back to its node and onto the piece present at its position. Models tied to the numba kernels exactly (captured in-situ calls + synthetic inputs). the set of samples below every mutation is unchanged; node columns/flags are copied through nodes_order; every piece of a split node carries unsplit_node_id when the schema can store it for all split nodes, rows untouched when it cannot (codec = parameter). Partial: the full-strength "unsplit_node_id where possible" is FALSE of the code (known finding unsplit-id-skipped-after-earlier-failure, negation proved on a witness); tables.sort, the metadata codec and allele decoding are tskit by contract, checked by the oracle on every generated input.',
     note='Lean kernel + {propext, Classical.choice, Quot.sound}; sampled exact correspondence; tskit/numpy by contract; argsort is a parameter (any sorted permutation)',
     technique='loop invariant over the sorted event list + refinement of the two-pointer sweep to a filter/fold spec + exact model/kernel correspondence',
     ref='§3 C29',
@@ -42,8 +42,10 @@ def one_ts(ts, info, res, stats, cases, impls):
     res.evaluations += 1
     for f in info["fired"]:
         stats["fired"][f] = stats["fired"].get(f, 0) + 1
+    md = sc.metadata_info(ts)
+    md_class = next((f[3:] for f in info["fired"] if f.startswith("md:")), None)
     try:
-        with sc.capture_kernels() as calls:
+        with sc.capture_warning() as warned, sc.capture_kernels() as calls:
             out = split_disjoint_nodes(ts)
     except Exception as e:  # noqa: BLE001
         res.violations.append(Violation(f"split-raised-{type(e).__name__}",
@@ -53,9 +55,16 @@ def one_ts(ts, info, res, stats, cases, impls):
     c, o = sc.case_from_capture(calls)
     c["flags"] = np.array(ts.nodes_flags, dtype=np.int64)          # node-table part of the model (`outFlags`)
     o["flags"] = np.array(out.nodes_flags, dtype=np.int64)
+    c["md"] = md                                                    # metadata part of the model (`outMetadata`)
+    o["md"] = sc.out_md_tokens(out)
+    if len(o["split"]):
+        k = "possible" if all(md["enc"][int(u)] is not None for u in o["split"]) else (
+            "impossible" if all(md["enc"][int(u)] is None for u in o["split"]) else "mixed")
+        key = f"{md_class}:{k}"
+        stats["md_classes_with_split"][key] = stats["md_classes_with_split"].get(key, 0) + 1
     cases.append(c)
     impls.append(o)
-    for kind, what in sc.ts_oracle(ts, out, o["order"], o["split"]):
+    for kind, what in sc.ts_oracle(ts, out, o["order"], o["split"], md=md, warned=bool(warned), md_class=md_class):
         res.violations.append(Violation(kind, what, replay))
     # idempotence on the real function
     try:
@@ -121,7 +130,7 @@ def run_batch(ctx, n_ts, n_synth, stream, res, stats):
 
 
 def new_stats():
-    return dict(fired={}, ts_split=0, synth_split=0, max_pieces=1, mutations_moved=0, sites_beyond_last_edge=0,
+    return dict(fired={}, md_classes_with_split={}, ts_split=0, synth_split=0, max_pieces=1, mutations_moved=0, sites_beyond_last_edge=0,
                 sites_before_first_edge=0, hyp={}, hyp_n=0, cases_ts=0, cases_synth=0)
 
 
@@ -166,14 +175,21 @@ def replay(ctx, payload):
         print("statement on the arrays:", bad or "holds")
         return not fails and not bad
     ts = ts_from_b64(d["ts"])
+    md = sc.metadata_info(ts)
     try:
-        with sc.capture_kernels() as calls:
+        with sc.capture_warning() as warned, sc.capture_kernels() as calls:
             out = split_disjoint_nodes(ts)
     except Exception as e:  # noqa: BLE001
         print(f"split_disjoint_nodes raised {type(e).__name__}: {e}")
         return False
     c, o = sc.case_from_capture(calls)
-    bad = sc.ts_oracle(ts, out, o["order"], o["split"])
+    c["flags"], o["flags"] = np.array(ts.nodes_flags, dtype=np.int64), np.array(out.nodes_flags, dtype=np.int64)
+    c["md"], o["md"] = md, sc.out_md_tokens(out)
+    md_class = next((f[3:] for f in d.get("fired", []) if f.startswith("md:")), None)
+    bad = sc.ts_oracle(ts, out, o["order"], o["split"], md=md, warned=bool(warned), md_class=md_class)
+    print("node metadata (schema class %s): split nodes %s" % (md_class, sorted(set(int(u) for u in o["split"]))[:10]))
+    for v in range(ts.num_nodes, out.num_nodes)[:6]:
+        print("  new node", v, "from", int(o["order"][v]), "metadata", out.node(v).metadata)
     fails = sc.compare([c], [o])
     print("violations:", bad or "none", "| model:", "differs" if fails else "identical")
     return not bad and not fails
